@@ -2,8 +2,8 @@
 (***************************************************************************)
 (* Legs B and C of C09: what the harness (`sweep run`) RECORDED FROM THE    *)
 (* REAL IMPLEMENTATION is loaded here - for every signing request the       *)
-(* concrete values it contained, the concrete state it met (chain height of *)
-(* the channel's monitor, allowlist as the node reports it, contest delays  *)
+(* concrete values it contained, the concrete state it met (height of the   *)
+(* node's chain tracker, allowlist as the node reports it, contest delays   *)
 (* of the real setup) and the real verdict - and                            *)
 (*   1. the property monitor Inv_C09 (reference predicate + signature       *)
 (*      target) is evaluated on every record        -> VIOLATIONS           *)
